@@ -128,18 +128,40 @@ def remove(a, p):
 # published regime tables
 # ---------------------------------------------------------------------------------------------
 _REG = {}
+_INCODE = None
+
+
+def _incode():
+    """the regime definitions the CODE under test registers (bin/vharness c12dump), so that the calculation
+    properties judge the arithmetic with whatever rate the library applies; agreement of the code with the
+    published data/regimes/*.json and the date logic are C19's and C12's subjects."""
+    global _INCODE
+    if _INCODE is None:
+        import subprocess
+        from vlib import BIN, GOENV
+        try:
+            p = subprocess.run([os.path.join(BIN, "vharness"), "c12dump", REPO], stdout=subprocess.PIPE, env=GOENV, timeout=120)
+            _INCODE = json.loads(p.stdout.decode()) if p.returncode == 0 else {}
+        except Exception:
+            _INCODE = {}
+    return _INCODE
 
 
 def regime(cc):
     cc = {"GR": "EL"}.get(cc, cc)
     if cc not in _REG:
-        p = os.path.join(REPO, "data", "regimes", cc.lower() + ".json")
-        _REG[cc] = json.load(open(p)) if os.path.exists(p) else None
+        d = _incode().get(cc.lower())
+        if d is None:
+            p = os.path.join(REPO, "data", "regimes", cc.lower() + ".json")
+            d = json.load(open(p)) if os.path.exists(p) else None
+        _REG[cc] = d
     return _REG[cc]
 
 
 def reset_tables():
+    global _INCODE
     _REG.clear()
+    _INCODE = None
 
 
 def rate_value(cc, cat, key, date, ext):
@@ -191,6 +213,15 @@ def resolve_combo(doc_cc, t, date):
     retained = cat_retained(cc, t["cat"])
     if retained is None:
         return None
+    if t.get("rate") and "_r" in t:
+        # the percentage / surcharge the library itself put on this combo (annotated by run3 from Go's result)
+        p, s, exempt, rext = rate_value(cc, t["cat"], t["rate"], date, ext)
+        if not country and p not in ("norate", "nodate"):
+            ext.update(rext)
+        rp, rs = t["_r"]
+        return {"cat": t["cat"], "country": country, "ext": sorted(ext.items()),
+                "pct": None if rp is None else A(rp[0], rp[1]), "sur": None if rs is None else A(rs[0], rs[1]),
+                "retained": retained, "key": t.get("rate", "")}
     if t.get("rate"):
         p, s, exempt, rext = rate_value(cc, t["cat"], t["rate"], date, ext)
         if p in ("norate", "nodate"):
@@ -274,8 +305,38 @@ def wire_line(op_, doc, prefix="c01"):
     return "%s %s %s" % (prefix, op_, w(to_wire(doc)))
 
 
+def strip_notes(x):
+    """drops the generator's private annotations (keys starting with '_') before rendering JSON"""
+    if isinstance(x, dict):
+        return {k: strip_notes(v) for k, v in x.items() if not k.startswith("_")}
+    if isinstance(x, list):
+        return [strip_notes(v) for v in x]
+    return x
+
+
 def json_line(op_, doc, prefix="c01"):
-    return "%s %s %s" % (prefix, op_, w(json.dumps(doc)))
+    return "%s %s %s" % (prefix, op_, w(json.dumps(strip_notes(doc))))
+
+
+def annotate_resolved(doc, resolved):
+    """writes the library's own percentage/surcharge onto every rate-key combo ('_r'), rows in the order
+    lines, discounts, charges"""
+    rows = list(doc.get("lines", [])) + list(doc.get("discounts", [])) + list(doc.get("charges", []))
+    if len(rows) != len(resolved):
+        return
+    for r, rc in zip(rows, resolved):
+        ts = r.get("taxes") or []
+        if len(ts) != len(rc):
+            continue
+        for t, (p, s) in zip(ts, rc):
+            if t.get("rate"):
+                t["_r"] = (None if p == [] else tuple(p), None if s == [] else tuple(s))
+
+
+def clear_resolved(doc):
+    for r in list(doc.get("lines", [])) + list(doc.get("discounts", [])) + list(doc.get("charges", [])):
+        for t in r.get("taxes") or []:
+            t.pop("_r", None)
 
 
 # ---------------------------------------------------------------------------------------------
@@ -811,19 +872,30 @@ def run3(docs, prefix="c01", op_="calc"):
     from vlib import run_go, run_oracle, parse_wire
     jl, wl, pr = [], [], []
     for d in docs:
+        clear_resolved(d)
+        jl.append(json_line(op_, d, prefix))
+    go = run_go(jl)
+    gos = []
+    for d, g in zip(docs, go):
+        gv = parse_wire(g)
+        # the last element of a successful projection lists the percentages the library resolved
+        if gv and gv[0] in (b"ok", b"nototals") and isinstance(gv[-1], list) and len(gv) >= 3:
+            annotate_resolved(d, gv[-1])
+            gv = gv[:-1]
+            g = " ".join(w(x) for x in gv)
+        gos.append((gv, g))
+    for d in docs:
         ok, r = in_domain(d)
         pr.append((ok, r))
-        jl.append(json_line(op_, d, prefix))
         try:
             wl.append(wire_line(op_, d, prefix))
         except (ValueError, KeyError):
             wl.append("%s %s ( )" % (prefix, op_))
-    go = run_go(jl)
     mo = run_oracle(wl)
     out = []
-    for d, (ok, r), g, m in zip(docs, pr, go, mo):
+    for d, (ok, r), (gv, g), m in zip(docs, pr, gos, mo):
         pv = [[b"err", b"calc"]] if r == "calc-error" else r
-        out.append({"doc": d, "in_domain": ok, "go": parse_wire(g), "model": parse_wire(m), "py": pv, "go_raw": g, "model_raw": m})
+        out.append({"doc": d, "in_domain": ok, "go": gv, "model": parse_wire(m), "py": pv, "go_raw": g, "model_raw": m})
     return out
 
 
